@@ -345,6 +345,19 @@ fn check_stack(buf: &mut Buffer, st: &Stack, ctx: &mut Ctx) {
             }
         }
     }
+    // L6: a layer that was shown at a preview offset (dragging) and is then placed with set_offset contributes at exactly that offset
+    for i in 0..n {
+        let mut ls = built.clone();
+        ls[i].set_preview_offset(Some((specs[i].ox + 30, specs[i].oy - 30).into()));
+        ls[i].set_offset((specs[i].ox, specs[i].oy));
+        set_layers(buf, ls);
+        ctx.count("transitions", 1);
+        let s = sample(buf, b, 0, 0);
+        if s != base {
+            report(ctx, "L6-placed-after-preview", json!({"layer": i}), &base, &s);
+            return;
+        }
+    }
     // R: reference compositor for normal layers without transparent colours
     if specs.iter().all(|l| l.mode == 0 && !l.has_transparent_colour()) {
         ctx.count("traces_validated", 1);
@@ -467,11 +480,48 @@ fn run_rows(page: usize, glyphs: std::ops::Range<u32>, ctx: &mut Ctx) {
     }
 }
 
+/// two font pages in one document: every glyph that is blank in page `page` sits between cells of another page (in which the
+/// same glyph number may be visible), 3 colour contexts, every other page q in {0, page+1, 32}
+fn run_mixed_rows(page: usize, ctx: &mut Ctx) {
+    let Ok(font) = icy_engine::BitFont::from_ansi_font_page(page) else {
+        ctx.count("font_pages_missing", 1);
+        return;
+    };
+    let blank: Vec<u32> = (0..256u32).filter(|g| font.get_glyph(char::from_u32(*g).unwrap()).map(|gl| gl.data.iter().all(|r| *r == 0)).unwrap_or(false)).collect();
+    for q in [0usize, (page + 1) % 43, 32] {
+        if q == page {
+            continue;
+        }
+        let Ok(other) = icy_engine::BitFont::from_ansi_font_page(q) else {
+            continue;
+        };
+        if other.size != font.size {
+            continue; // the renderer draws every page in the cell size of the primary font
+        }
+        let mut b = Buffer::new((3 * blank.len().max(1) as i32, 3));
+        b.set_font(0, other.clone());
+        b.set_font(q, other);
+        b.set_font(page, font.clone());
+        for (row, (fg, bg)) in [(7u32, 0u32), (14, 1), (0, 7)].iter().enumerate() {
+            for (i, g) in blank.iter().enumerate() {
+                let x = 3 * i as i32;
+                put(&mut b, x, row as i32, &Cell::new(*g, 12, 2).page(q));
+                put(&mut b, x + 1, row as i32, &Cell::new(*g, *fg, *bg).page(page));
+                put(&mut b, x + 2, row as i32, &Cell::new(b'A' as u32, 3, 4).page(q));
+            }
+        }
+        ctx.count("nontrivial", 1);
+        check_optimizer(&b, json!({"font_page_of_the_blank_glyphs": page, "neighbour_page": q, "blank_glyphs": blank, "layout": "3 colour rows x (glyph g on the other page, g on this page, 'A' on the other page)"}), "blank-glyph-between-pages", ctx);
+    }
+}
+
 // ------------------------------------------------------------------ engine
 
 enum Job {
     Stacks { rich: bool, depth: u32, first: u64, count: u64 },
     Rows { page: usize, lo: u32, hi: u32 },
+    /// cells of two font pages next to each other: every glyph that is blank in its own page between neighbours of another page
+    MixedRows { page: usize },
     OptStacks { first: u64, count: u64, depth: u32 },
 }
 
@@ -510,6 +560,9 @@ fn build(prop: &str, tier: &str) -> Layers {
             for lo in (0..256).step_by(16) {
                 jobs.push(Job::Rows { page, lo, hi: lo + 16 });
             }
+        }
+        for page in 0..=42usize {
+            jobs.push(Job::MixedRows { page });
         }
         let depth = if thorough { 3 } else { 2 };
         let total = (small.len() as u64).pow(depth);
@@ -551,19 +604,30 @@ impl Engine for Layers {
                 }
             }
             Job::Rows { page, lo, hi } => run_rows(*page, *lo..*hi, ctx),
+            Job::MixedRows { page } => run_mixed_rows(*page, ctx),
             Job::OptStacks { first, count, depth } => {
                 let depth = *depth;
                 for i in *first..*first + *count {
                     let specs = self.stack(false, depth, i);
-                    let mut buf = Buffer::new((6, 5));
-                    let mut ls: Vec<Layer> = specs.iter().map(|l| l.build()).collect();
-                    // the flattening step needs a base layer as large as the document
-                    let mut base = Layer::new("base", (6, 5));
-                    base.set_char((0, 0), AttributedChar::new('x', TextAttribute::new(2, 3)));
-                    ls.insert(0, base);
-                    buf.layers = ls;
-                    ctx.count("nontrivial", 1);
-                    check_optimizer(&buf, json!({"stack(bottom first, above a 6x5 base layer)": specs.iter().map(|l| l.json()).collect::<Vec<_>>()}), "layer-stack", ctx);
+                    // the flattening step needs a base layer as large as the document; the base layer in every state a user can put it in
+                    for (bi, base_state) in ["plain", "hidden", "locked", "moved by (1,1)", "alpha channel"].iter().enumerate() {
+                        let mut buf = Buffer::new((6, 5));
+                        let mut ls: Vec<Layer> = specs.iter().map(|l| l.build()).collect();
+                        let mut base = Layer::new("base", (6, 5));
+                        base.set_char((0, 0), AttributedChar::new('x', TextAttribute::new(2, 3)));
+                        base.set_char((5, 4), AttributedChar::new('y', TextAttribute::new(14, 1)));
+                        match bi {
+                            1 => base.properties.is_visible = false,
+                            2 => base.properties.is_locked = true,
+                            3 => base.set_offset((1, 1)),
+                            4 => base.properties.has_alpha_channel = true,
+                            _ => {}
+                        }
+                        ls.insert(0, base);
+                        buf.layers = ls;
+                        ctx.count("nontrivial", 1);
+                        check_optimizer(&buf, json!({"base_layer": base_state, "stack(bottom first, above a 6x5 base layer)": specs.iter().map(|l| l.json()).collect::<Vec<_>>()}), "layer-stack", ctx);
+                    }
                 }
             }
         }
@@ -573,6 +637,7 @@ impl Engine for Layers {
             Job::Stacks { rich, depth, first, count } => json!({"engine": "layer-stacks", "idx": idx, "menu": if *rich { "rich" } else { "small" }, "layers": depth, "first": first, "count": count,
                 "first_stack": self.stack(*rich, *depth, *first).iter().map(|l| l.json()).collect::<Vec<_>>(), "key": "layer-stacks"}),
             Job::Rows { page, lo, hi } => json!({"engine": "optimizer-rows", "idx": idx, "font_page": page, "middle_glyphs": [lo, hi], "key": "optimizer-rows"}),
+            Job::MixedRows { page } => json!({"engine": "optimizer-mixed-page-rows", "idx": idx, "font_page": page, "key": "optimizer-mixed-page-rows"}),
             Job::OptStacks { first, count, depth } => json!({"engine": "optimizer-stacks", "idx": idx, "first": first, "count": count, "layers": depth, "key": "optimizer-stacks"}),
         }
     }
@@ -581,7 +646,7 @@ impl Engine for Layers {
     }
     fn meta(&self) -> Value {
         json!({"property": self.prop, "rich_layer_menu": self.rich.len(), "small_layer_menu": self.small.len(), "batches": self.jobs.len(),
-               "laws": ["L1 empty alpha layer at every index", "L2 edit hidden layers", "L3 translate stack by 4 vectors", "L4 replace everything below an opaque normal layer", "L5 move each layer away", "R reference compositor (normal layers, no transparent colours)"]})
+               "laws": ["L1 empty alpha layer at every index", "L2 edit hidden layers", "L3 translate stack by 4 vectors", "L4 replace everything below an opaque normal layer", "L5 move each layer away", "L6 place each layer after a preview offset", "R reference compositor (normal layers, no transparent colours)"]})
     }
 }
 
